@@ -40,6 +40,8 @@ Clauses(ln) ==
     [] ln.ev = "kernel"    -> << <<"KernelEqualsSerial", KernelOK(ln)>> >>
     [] ln.ev = "reduce"    -> << <<"ReduceEqualsSerial", KernelOK(ln)>> >>
     [] ln.ev = "builder"   -> << <<"BuilderEqualsSerial", StrideOK(ln)>> >>
+    \* quimb.gen.operators Hamiltonians assembled from terms in worker threads (pool.map + par_reduce)
+    [] ln.ev = "genbuilder" -> << <<"GenBuilderEqualsSerial", KernelOK(ln)>> >>
     [] OTHER               -> << <<"UnknownEvent", FALSE>> >>
 
 TInit == l = 1 /\ fails = <<>>
